@@ -1,125 +1,13 @@
-//! Stubs for the cryptographic leaves (applied with #[kani::stub]); each states its contract.
+//! Stubs for the cryptographic leaves (shared file) + construction of an RLN instance through the hook.
+#[path = "../../vlib/stubs_common.rs"]
+mod common;
+pub use common::*;
+
 use crate::circuit::{Curve, Fr};
-use crate::protocol::{ProofError, RLNProofValues};
 use crate::public::RLN;
-use ark_ff::{BigInt, PrimeField};
-use ark_groth16::{Proof as ArkProof, ProvingKey, VerifyingKey};
+use ark_groth16::{ProvingKey, VerifyingKey};
 use ark_relations::r1cs::ConstraintMatrices;
 use utils::ZerokitMerkleTree;
-
-const P: [u64; 4] = [0x43e1f593f0000001, 0x2833e84879b97091, 0xb85045b68181585d, 0x30644e72e131a029];
-
-#[inline]
-fn geq_p(a: &[u64; 4]) -> bool {
-    if a[3] != P[3] {
-        return a[3] > P[3];
-    }
-    if a[2] != P[2] {
-        return a[2] > P[2];
-    }
-    if a[1] != P[1] {
-        return a[1] > P[1];
-    }
-    a[0] >= P[0]
-}
-#[inline]
-fn sub_p(a: &mut [u64; 4]) {
-    let mut bw = 0u64;
-    let mut i = 0;
-    while i < 4 {
-        let (d1, b1) = a[i].overflowing_sub(P[i]);
-        let (d2, b2) = d1.overflowing_sub(bw);
-        a[i] = d2;
-        bw = (b1 | b2) as u64;
-        i += 1;
-    }
-}
-
-/// Contract of `rln::utils::bytes_le_to_fr` (validated against the function's MIR by Engine M):
-/// panics unless `input.len() >= 32`; otherwise returns (LE integer of input[0..32] mod p, 32).
-/// 2^256 / p < 6, so five conditional subtractions reduce completely.
-pub fn bytes_le_to_fr_contract(input: &[u8]) -> (Fr, usize) {
-    let s = &input[0..32];
-    let mut l = [0u64; 4];
-    let mut k = 0;
-    while k < 4 {
-        l[k] = u64::from_le_bytes([s[8 * k], s[8 * k + 1], s[8 * k + 2], s[8 * k + 3], s[8 * k + 4], s[8 * k + 5], s[8 * k + 6], s[8 * k + 7]]);
-        k += 1;
-    }
-    let mut r = 0;
-    while r < 5 {
-        if geq_p(&l) {
-            sub_p(&mut l);
-        }
-        r += 1;
-    }
-    (Fr::from_bigint(BigInt::new(l)).unwrap(), 32)
-}
-
-/// Contract of `rln::utils::fr_to_bytes_le`: the 32-byte little-endian encoding of the canonical
-/// representative (validated against the function's MIR by Engine M).
-pub fn fr_to_bytes_le_contract(input: &Fr) -> Vec<u8> {
-    let l = input.into_bigint().0;
-    let mut v = Vec::with_capacity(32);
-    let mut k = 0;
-    while k < 4 {
-        let b = l[k].to_le_bytes();
-        v.extend_from_slice(&b);
-        k += 1;
-    }
-    v
-}
-
-/// Toy Poseidon: deterministic, arity- and order-sensitive mixer built from the real field addition.
-pub fn toy_poseidon(input: &[Fr]) -> Fr {
-    let mut acc = Fr::from(7u64 + input.len() as u64);
-    let mut i = 0;
-    while i < input.len() {
-        acc = acc + acc + input[i];
-        i += 1;
-    }
-    acc
-}
-
-/// Toy hash-to-field: deterministic function of every byte and of the length.
-pub fn toy_hash_to_field(signal: &[u8]) -> Fr {
-    let mut acc: u64 = 0x5bd1e995 ^ (signal.len() as u64);
-    let mut i = 0;
-    while i < signal.len() {
-        acc = acc.rotate_left(5) ^ (signal[i] as u64) ^ (acc << 9);
-        i += 1;
-    }
-    Fr::from(acc)
-}
-
-/// Recording stub of `verify_proof`: remembers the public values it was asked about and returns a
-/// nondeterministic verdict (or error). Groth16 soundness itself is trusted, not decided here.
-pub static mut VP_CALLS: u32 = 0;
-pub static mut VP_VALUES: [[u64; 4]; 5] = [[0; 4]; 5]; // y, nullifier, root, x, external_nullifier
-pub static mut VP_VERDICT: u8 = 0; // 0 = Err, 1 = Ok(false), 2 = Ok(true)
-
-pub fn spy_verify_proof(_vk: &VerifyingKey<Curve>, _proof: &ArkProof<Curve>, v: &RLNProofValues) -> Result<bool, ProofError> {
-    let verdict: u8 = kani_any_u8();
-    unsafe {
-        VP_CALLS += 1;
-        VP_VALUES = [v.y.into_bigint().0, v.nullifier.into_bigint().0, v.root.into_bigint().0, v.x.into_bigint().0, v.external_nullifier.into_bigint().0];
-        VP_VERDICT = verdict % 3;
-        match VP_VERDICT {
-            0 => Err(ProofError::SynthesisError(ark_relations::r1cs::SynthesisError::MalformedVerifyingKey)),
-            1 => Ok(false),
-            _ => Ok(true),
-        }
-    }
-}
-
-#[cfg(kani)]
-fn kani_any_u8() -> u8 {
-    kani::any()
-}
-#[cfg(not(kani))]
-fn kani_any_u8() -> u8 {
-    0
-}
 
 /// An RLN instance with empty key material (never inspected: the prover/verifier are stubbed)
 /// and a Vec-backed tree of the given depth.
